@@ -428,7 +428,7 @@ func (ex *Exec) isLocalFreshSlice(e ast.Expr) bool {
 	if sel, ok := unparen(e).(*ast.SelectorExpr); ok {
 		// a slice-typed field of an object allocated in this function by &T{...} / new(T)
 		if id, ok := unparen(sel.X).(*ast.Ident); ok {
-			if obj, ok := ex.info.Uses[id].(*types.Var); ok && ex.freshPtrVars[obj] {
+			if obj, ok := ex.info.Uses[id].(*types.Var); ok && (ex.freshPtrVars[obj] || ex.freshStructVars[obj]) {
 				return true
 			}
 		}
